@@ -281,6 +281,19 @@ def run(cx: Cx):
             bad = ('running-test-dominates-every-effect', clocks[0], p,
                    "Model.execute advances the clock on a path that never tested that the model is running")
             break
+    if not bad:
+        # every other change of shared state a request makes (sorting the queue "to honour edited priorities", counters, ...) also
+        # comes after the model was found running: a request on a completed model leaves all model state untouched
+        for p in mps:
+            evs = p.events
+            for i, e in enumerate(evs):
+                if e.kind == 'store' and e.data.get('shared') and e.data.get('root_kind') != 'fresh' and not _running_edges(cx, evs[:i]):
+                    bad = ('running-test-dominates-every-effect', i, p,
+                           f"Model.execute changes shared state ({e.data.get('store')} on {e.data.get('loc')}) on a path that has not "
+                           f"found the model running: a request on a completed model no longer leaves the model untouched")
+                    break
+            if bad:
+                break
     if bad:
         key, i, p, msg = bad
         cx.violation('R-ORDER', mfn.qualname, key, msg, where=f"{mfn.module.relpath}:{p.events[i].line}", path=p.lines())
